@@ -352,7 +352,7 @@ theorem ph_s2Success {c enc u fr auth s} (h : Ph c enc (.sasl2 u fr) auth false 
   obtain ⟨h1, h2, h3, h4, h5, h6, h7, h8⟩ := h
   have e : (step s (.recv (.s2Success .smEnabled .none false true))).1 =
       { s with authenticated := true, bind2Bound := true, hasToken := s.hasToken, canResume := true, smEnabled := true,
-               ackEnabled := true, listener := .idle } := by
+               ackEnabled := true, listener := .idle, resumeLoc := false } := by
     simp [step, recv, h2, h3, hh, dispatch, h5, sasl2Handle, onSmEnabled, enableAck, hok]
   rw [e]
   exact ⟨⟨h1, h2, h3, h4, rfl, rfl, h7, h8⟩, hh, rfl⟩
